@@ -44,7 +44,8 @@ PAYLOADS = ["'", "''", "o'x", "' OR 1=1 --", "'; DROP TABLE canary; --", "x' OR 
             "a%b", "a_b", "'%", "'||'", "' || (SELECT 1) || '", "\"", "\"a\"", "`", "$$", "?",
             ":x", "%s", "{0}", "\n", "\r\n'", "'\n--", "x" * 300, "'" * 50, "''" * 30 + "'",
             "é'ß", "中'文", "😀'", "", " ", "null", "NULL'", "a'" * 200, "x" * 260 + "' OR 1=1 --",
-            "'" + "y" * 1000, "%" * 300 + "'"]
+            "'" + "y" * 1000, "%" * 300 + "'", "{1}", "{2}", "{0}{1}{2}", "{}", "{1}' --", "%(1)s",
+            "%(arg)s", "\\1", "\\g<1>", "$1", "$2", "{args_sql[1]}", "{arg_sql}", ":1", "@p1", "?1"]
 ALPHA = "'\"%_\\-;/* \nx\x00’ʼ()|="
 
 SFUNCS1 = ["tolower", "toupper", "trim", "length"]
